@@ -296,13 +296,23 @@ def c09_predefined(ctx):
     """Symbols "defined by the ISA configuration" are the list under predefined.symbols."""
     from rules.shared import cfg_accessors
     cfg_accessors(ctx, only=('predefined_symbols',))
+    from rules.shared import exact_lookup
+    ctx.rule('C09.6', 'a symbol is found under exactly the name it was defined with', 1)
+    exact_lookup(ctx, 'bespokeasm.assembler.preprocessor.Preprocessor.get_symbol', '_symbols', 'a preprocessor symbol', 'lookup:symbol-by-exact-name')
 
 
-RULES = [c09_predefined, c09_1, c09_2, c09_3, c09_4, c09_5]
+def c09_state(ctx):
+    """Per-statement / per-lookup properties presuppose that nothing is remembered between statements beyond the reviewed state."""
+    from rules.shared import state_discipline
+    state_discipline(ctx, ('bespokeasm.assembler.preprocessor', 'bespokeasm.assembler.line_object.preprocessor_line', 'bespokeasm.assembler.line_object.factory'))
+
+
+RULES = [c09_predefined, c09_1, c09_2, c09_3, c09_4, c09_5, c09_state]
 
 _P = 'assembler/preprocessor/__init__.py'
 _F = 'assembler/line_object/factory.py'
 MUTANTS = [
+    V('c09-numeric-looking-names-skipped', 'assembler/preprocessor/__init__.py', "        return self._symbols.get(name, None)", "        if name[:1].isdigit() or name.endswith('H'):\n            return None\n        return self._symbols.get(name, None)", 'C09.6'),
     V('c09-config-symbols-wrong-key', 'assembler/model/__init__.py', "            return self._config['predefined']['symbols']", "            return self._config['predefined']['constants']", 'CFG.1'),
     V('c09-str-replace', _P, '''                line_str = re.sub(
                     r'\\b' + re.escape(s) + r'\\b',
